@@ -6,6 +6,12 @@ package workercmd
 
 //@ func (*handler).handle
 //@   property C15
+//@   ghost pinnedCtx context.Context = nil
+//@   ghost pinned bool = false
+//@   on call token.WithKeyID(_, id) ret (c): pinnedCtx = c; pinned = sameslice(id, rr.KeyID)
+//@   before call (*tokencache.Cache).GetKey(_, c, name): assert @key_lookup_keeps_pin (rr.KeyID != nil ==> pinned && c == pinnedCtx) && name == rr.KeyName
+//@   before call invoke token.Key.SignContext(_, c, _, _): assert @sign_keeps_pin rr.KeyID != nil ==> pinned && c == pinnedCtx
+//@   before call (*tokencache.Cache).Ping(_, c): assert @ping_keeps_pin rr.KeyID != nil ==> pinned && c == pinnedCtx
 //@   ensures @error_reply_is_blank err != nil ==> !resp.Usage && !resp.Retryable && resp.Err == "" && resp.Key == ""
 //@
 //@ func (*handler).ServeHTTP
